@@ -1247,7 +1247,7 @@ PROPS["C20"] = dict(
          "pyxis and every output file is compared by content hash; non-trivial = accepted and the two texts differ",
     level_text="Proved in Coq (Properties/C20.v), each as 'the model computes the same result': explicit address = natural address, size attribute = natural size, index = natural slot, enum value = implicit value. "
                "Gap <-> address: the placement fold ends at the same offset with region lists that differ only in how the unnamed gap region was created, and the naming pass maps both to the same regions (C20_gap_is_address, C20_naming_ignores_gap_spelling). "
-               "C20_reorder_same_output: reordering the definitions inside the modules of a collision_free, clean input gives the same verdict class and, when accepted, exactly the same files, under any two schedules. C20_number_spelling_irrelevant (IntLit.v): for every number, every two spellings (decimal, hex in either case, binary, octal, any underscores, any integer suffix) are read as the same value by the lexical model of proc_macro2 + syn + base10_parse, hence give the same token and AST (the lexical model is tied to the real lexer by C18's correspondence D). All rewrites, again on the real code, are decided by the monitor: original and rewritten description built by the real pyxis, outputs byte-identical.",
+               "C20_reorder_same_output: reordering the definitions inside the modules of a collision_free, clean input gives the same verdict class and, when accepted, exactly the same files, under any two schedules. C20_rewritten_same_output (Rewrite*.v): the same END TO END for the other rewrites -- two inputs whose definitions are related one by one by any number of explicit-index / explicit-enum-value / explicit-address / gap<->address / natural-size steps (either direction) give the same verdict class and, when accepted, exactly the same files, under any two schedules; for the semantic rewrites the written address / size must be the one the original reaches, which needs checking only in the original's final registry (C20_rewritten_same_output_accepted); composes with reordering. C20_number_spelling_irrelevant (IntLit.v): for every number, every two spellings (decimal, hex in either case, binary, octal, any underscores, any integer suffix) are read as the same value by the lexical model of proc_macro2 + syn + base10_parse, hence give the same token and AST (the lexical model is tied to the real lexer by C18's correspondence D). All rewrites, again on the real code, are decided by the monitor: original and rewritten description built by the real pyxis, outputs byte-identical.",
     level_note="Trusted: Coq kernel; model validated by this run's correspondence (verdict, file set, registry on both sides); byte identity is observed on the implementation (content hash of every output file).",
 )
 
